@@ -258,6 +258,21 @@ def _disturb_process_state(klepto, km):
             pass
     except Exception:
         pass
+    # ... and keymaps of the same class with *other* options were used first (another error mode, codec, serializer
+    # protocol, hash algorithm): each keymap's keys depend on its own options only
+    for alt in ({'kw': dict(km.get('kw') or {}, strict=False)}, {'kw': dict(km.get('kw') or {}, strict=None)},
+                {'kw': dict(km.get('kw') or {}, strict=True)}, {'typed': not km['typed']}, {'flat': not km['flat'], 'sentinel': False}):
+        try:
+            if 'kw' in alt and km['cls'] != 'stringmap':
+                continue
+            other = gen.build_keymap(klepto, dict(km, **alt))
+            for a in ((u'\u03a9mega', 1), ('a', 1.0), ((1, 2),)):
+                try:
+                    other(*a, k=a[0])
+                except Exception:
+                    pass
+        except Exception:
+            pass
 
 
 def c17_keys(klepto, job):
@@ -586,10 +601,16 @@ def gen_cells_c17(rng, n, with_backend=False):
     for _ in range(n):
         spec = keymon.gen_spec(rng)
         km = rng.choice([k for k in gen.keymap_cfgs(info_preserving=True)])
+        if not with_backend and rng.random() < 0.2:
+            # stringmap with a real codec and each error mode (a key that cannot be encoded raises - in every process alike)
+            km = {'cls': 'stringmap', 'type': rng.choice(['utf_8', 'latin_1', 'ascii', 'utf_16']), 'flat': rng.random() < 0.6,
+                  'typed': rng.random() < 0.3, 'sentinel': False, 'kw': {'strict': rng.choice([True, None, False])}}
         kk = gen.key_kind(km)
         if kk == 'raw' and not km['flat']:
             km = dict(km); km['flat'] = True
         pool = [v for v in STABLE_VALUES if not (kk == 'raw' and isinstance(v, (list, dict)))]
+        if km.get('kw') and 'strict' in km['kw']:
+            pool = pool + [u'\u03a9mega', u'\xfcn\xef', u'\u65e5\u672c']
         if with_backend:
             # (a directory archive names 1, 1.0 and True apart although they are one key in memory - recorded C03
             # finding; sessions are judged on values that do not collide that way)
